@@ -243,6 +243,10 @@ DoPitx(s, e) ==
                                    \o (IF scrbad # {} THEN " (" \o e.scratch[Least(scrbad)].m \o ": " \o Str(e.scratch[Least(scrbad)].v) \o " vs " \o Str(ArchCost(e.scratch[Least(scrbad)].m, x)) \o ")" ELSE "")))
     ELSE IF e.numel # NumelOf(x) THEN Stop(s, FailPit(a, "PIPE.iii.C04.numel " \o pre \o "the exported network has " \o Str(e.numel) \o " weights and biases, params = " \o Str(NumelOf(x))))
     ELSE IF badsu # {} THEN Stop(s, FailPit(a, su[Least(badsu)].m))
+    \* prediction only: a pipeline replayed from PipelineMC must reach the architecture the model checker computed
+    ELSE IF e.has_expect /\ ArchIndexOk(e.expect) /\ NormArch(e.expect) # x
+         THEN R([s EXCEPT !.cur = x, !.m = <<>>, !.T = <<>>, !.pit = <<>>],
+                Dr("drift:round " \o Str(e.round) \o ": the real pipeline left the path of the model checker (the masks could not be written as planned): " \o ArchDiffMsg(x, NormArch(e.expect))))
     ELSE R([s EXCEPT !.cur = x, !.m = <<>>, !.T = <<>>, !.pit = <<>>], OK)
 
 (* ====================================================================== *)
@@ -279,11 +283,21 @@ MpsCost(a, e, mt) ==
     ELSE Viol("PIPE.iii.C05.cost " \o mt \o ": observed " \o Str(e.cost[mt]) \o "/100, exact cost of the reported assignment on the network PIT exported is " \o Str(ex))
 
 SuOf(a, e) == [n \in QIdsP(a) |-> LET r == RecN(e.L, n) IN [su_i |-> r.su_i, su_w |-> r.su_w, su_o |-> r.su_o]]
+\* the converted model has the architecture it was handed, except that a BatchNorm may have been folded into its layer
+\* (the layer then has a bias); WHICH BatchNorms are folded (Conv2d / Linear today) is a prediction, not a property
+FoldEquivNode(o, h) == \/ o = h
+                       \/ (h.op \in {"conv", "lin"} /\ h.bn /\ o = [h EXCEPT !.bn = FALSE, !.bias = TRUE])
+FoldEquiv(obs, h) == /\ obs.dim = h.dim /\ obs.c0 = h.c0 /\ obs.sp = h.sp /\ N(obs) = N(h)
+                     /\ \A n \in 1..N(h) : FoldEquivNode(obs.nodes[n], h.nodes[n])
+Folded(a0, a, L) == Nd(a0, L).bn /\ ~Nd(a, L).bn
 DoMps(s, e) ==
     LET a0 == s.cur IN
     IF ~MpsDomain(a0) THEN Stop(s, OK)                    \* outside the grammar of the MPS stage (concatenations ...): nothing is claimed
+    ELSE IF e.ok /\ e.proj_ok /\ ArchIndexOk(e.obs) /\ ~FoldEquiv(NormArch(e.obs), a0)
+    THEN Stop(s, Viol("PIPE.i.arch mps: the converted model is not the exported network (up to BatchNorm folding): " \o ArchDiffMsg(NormArch(e.obs), MpsImportArch(a0))))
     ELSE
-    LET a == MpsImportArch(a0)  gs == GS("fixed", a) IN
+    LET a == IF e.ok /\ e.proj_ok /\ ArchIndexOk(e.obs) THEN NormArch(e.obs) ELSE MpsImportArch(a0)
+        gs == GS("fixed", a) IN
     \* per-channel (pruning) search: claimed, as in C05, on networks whose searchable layers are not tied to the network
     \* input, whose sharing components have one width, and that end in a layer
     IF e.cfg.wt = "pc" /\ ~(~InputConnected(gs, a) /\ ~MixedWidth(gs, a) /\ IsLayer(a, N(a))) THEN Stop(s, OK)
@@ -292,10 +306,16 @@ DoMps(s, e) ==
     ELSE IF ~e.mode_kept THEN Stop(s, Viol("PIPE.C07.mode: MPS does not keep the training / eval mode it found"))
     ELSE IF ~e.proj_ok THEN Stop(s, Viol("PIPE.i.kind: the MPS model contains something outside the grammar: " \o e.proj_err))
     ELSE IF ~ArchIndexOk(e.obs) THEN Stop(s, Viol("trace: malformed projection"))
-    ELSE IF NormArch(e.obs) # a THEN Stop(s, Viol("PIPE.i.arch mps: the converted model is not MpsImportArch(exported network): " \o ArchDiffMsg(NormArch(e.obs), a)))
     ELSE IF ~WidthsOk(e, a) THEN Stop(s, Viol("PIPE.i.width mps: tensor " \o Str(FirstBadWidth(e, a)) \o " has another width than derived"))
     ELSE IF NsOf(e.L) # QIdsP(a) \/ Len(e.L) # Cardinality(QIdsP(a)) \/ \E n \in QIdsP(a) : RecN(e.L, n).kind # KindP(a, n)
          THEN Stop(s, Viol("PIPE.C02.points: searchable modules at " \o Str(NsOf(e.L)) \o ", quantisation points of the dataflow " \o Str(QIdsP(a))))
+    \* (ii) hand-over of the parameters: MPS quantises the float weights it was handed; where it folds the BatchNorm that
+    \* PIT re-created (Conv2d / Linear), weight and bias are the analytic fold (float32 round-off: 1e-6 relative)
+    \* (a candidate tuple with the 0-bit precision makes MPS rescale the initial weights on purpose: compensate_weights_values)
+    ELSE IF ~Has0(e.cfg.pw) /\ \E L \in Layers(a) : IF Folded(a0, a, L) THEN ~(RecN(e.L, L).wfold_e9 \in 0..1000) ELSE ~RecN(e.L, L).wsame
+         THEN LET L == Least({y \in Layers(a) : IF Folded(a0, a, y) THEN ~(RecN(e.L, y).wfold_e9 \in 0..1000) ELSE ~RecN(e.L, y).wsame}) IN
+              Stop(s, Viol("PIPE.ii.mps-weights layer " \o Str(L) \o ": the float weights / bias of the MPS layer are not the ones of the network PIT exported"
+                               \o (IF Folded(a0, a, L) THEN " with its BatchNorm folded in (rel. deviation x1e9 = " \o Str(RecN(e.L, L).wfold_e9) \o ")" ELSE "")))
     ELSE IF e.call_err # "" THEN Stop(s, Viol("PIPE.C02.call: a public call raised: " \o e.call_err))
     ELSE IF \E n \in QIdsP(a) : ~RecN(e.L, n).su_ok \/ (n \in Layers(a) /\ (Len(RecN(e.L, n).su_w) # Ch(a, n) \/ Len(RecN(e.L, n).th_w) # Ch(a, n)))
          THEN Stop(s, Viol("PIPE.C02.summary: summary() has no usable entry for a quantisation point"))
@@ -317,7 +337,8 @@ DoMps(s, e) ==
     LET cv == [mt \in DOMAIN e.cost |-> MpsCost(a, e, mt)]
         bad  == {mt \in DOMAIN e.cost : cv[mt].k = "viol"}
         kn   == {mt \in DOMAIN e.cost : cv[mt].k = "known"}
-        drift == IF e.conflict THEN Dr("drift:the quantiser groups of the specification do not fit the quantiser objects of the model (selection drawn per object)")
+        drift == IF a # MpsImportArch(a0) THEN Dr("drift:MPS folded other BatchNorms than Conv2d-BN / Linear-BN: " \o ArchDiffMsg(a, MpsImportArch(a0)))
+                 ELSE IF e.conflict THEN Dr("drift:the quantiser groups of the specification do not fit the quantiser objects of the model (selection drawn per object)")
                  ELSE IF \E n \in QIdsP(a) : RecN(e.L, n).su_o # RecN(e.L, n).want_o \/ RecN(e.L, n).su_w # RecN(e.L, n).want_w
                  THEN Dr("drift:summary() does not report the precisions written by the harness")
                  ELSE OK IN
@@ -355,6 +376,7 @@ DoMpsx(s, e) ==
 (* int : integerize_arch(backend)                                          *)
 (* ====================================================================== *)
 BigLeP(x, y) == IA!BigLe(x, y)
+Blur(a) == [a EXCEPT !.nodes = [n \in 1..N(a) |-> IF Nd(a, n).op = "relu" THEN DefNode("id", Nd(a, n).ins) ELSE Nd(a, n)]]
 \* does tensor t reach back to its quantisation point through an average pooling (avg = observed average-pooling nodes)
 RECURSIVE PassesAvg(_, _, _)
 PassesAvg(a, avg, t) == IF t = 0 \/ IsQNode(a, t) THEN FALSE ELSE IF t \in avg THEN TRUE ELSE PassesAvg(a, avg, In1(a, t))
@@ -415,7 +437,8 @@ DoInt(s, e) ==
     ELSE IF e.stage # "done" THEN Stop(s, Viol("PIPE.C14.layers " \o pre \o e.msg))
     ELSE IF ~e.proj_ok THEN Stop(s, Viol("PIPE.i.kind " \o pre \o "the integer network contains something outside the grammar: " \o e.proj_err))
     ELSE IF ~ArchIndexOk(e.obs) THEN Stop(s, Viol("trace: malformed projection"))
-    ELSE IF NormArch(e.obs) # x THEN Stop(s, Viol("PIPE.i.arch int: " \o pre \o "the integer network has another architecture: " \o ArchDiffMsg(NormArch(e.obs), x)))
+    \* (whether a ReLU is kept or replaced by an identity - the clip of the requantiser implements it - is a prediction)
+    ELSE IF Blur(NormArch(e.obs)) # Blur(a) THEN Stop(s, Viol("PIPE.i.arch int: " \o pre \o "the integer network has another architecture: " \o ArchDiffMsg(NormArch(e.obs), x)))
     ELSE IF ~WidthsOk(e, x) THEN Stop(s, Viol("PIPE.i.width int: tensor " \o Str(FirstBadWidth(e, x)) \o " has another width than derived"))
     ELSE IF NsOf(e.layers) # Layers(a) THEN Stop(s, Viol("PIPE.C14.layers " \o pre \o "integer layers " \o Str(NsOf(e.layers)) \o " instead of " \o Str(Layers(a))))
     ELSE
@@ -436,7 +459,8 @@ DoInt(s, e) ==
                ELSE IF mau /\ f.conv THEN Kn("known:F31:MAUPITIConv2d as final layer returns conv(offset input) + integer bias: neither zero-point nor scale applied")
                ELSE Viol("PIPE.ii.C14.final " \o pre \o "final layer " \o Str(f.n) \o " does not reproduce the real-valued logits: got*1e6 = " \o Str(f.got1e6)
                              \o ", logits*1e6 = " \o Str(f.logit1e6) \o ", 1000*error/tolerance = " \o Str(f.ratio1000))
-    IN Stop([s EXCEPT !.cur = x], Worse(Worse(lay, fin), residue))
+        drift == IF NormArch(e.obs) # x THEN Dr("drift:" \o pre \o "ReLU handling differs from the model (MAUPITI: identities, MATCH: kept): " \o ArchDiffMsg(NormArch(e.obs), x)) ELSE OK
+    IN Stop([s EXCEPT !.cur = x], Worse(Worse(Worse(lay, fin), residue), drift))
 
 (* ====================================================================== *)
 (* the walk                                                                *)
